@@ -439,6 +439,11 @@ type c15ChildOut struct {
 // runChild executes "c15:<order>:<name>" in a process where nothing of the library has run yet.
 func runChild(spec string) {
 	parts := strings.SplitN(spec, ":", 3)
+	if len(parts) == 3 && parts[0] == "c12" {
+		mode, _ := strconv.Atoi(parts[1])
+		runChildC12(mode, parts[2])
+		return
+	}
 	if len(parts) >= 2 && parts[0] == "c11" {
 		runChildC11(strings.SplitN(spec, ":", 2)[1])
 		return
